@@ -63,6 +63,7 @@ type Do struct {
 
 type stepBind struct {
 	sym     slip.Symbol
+	scope   *slip.Scope
 	step    slip.Object
 	hasStep bool
 	result  slip.Object
@@ -73,7 +74,7 @@ func (f *Do) Call(s *slip.Scope, args slip.List, depth int) (result slip.Object)
 	slip.CheckArgCount(s, depth, f, args, 2, -1)
 	ns := s.NewScope()
 	d2 := depth + 1
-	steps, test, rforms := setupDo(s, ns, args, d2)
+	steps, test, rforms, _ := setupDo(s, ns, args, d2)
 	for {
 		if ns.Eval(test, d2) != nil {
 			for _, rf := range rforms {
@@ -117,7 +118,18 @@ func (f *Do) Call(s *slip.Scope, args slip.List, depth int) (result slip.Object)
 	return
 }
 
-func setupDo(s, ns *slip.Scope, args slip.List, depth int) (steps []*stepBind, test slip.Object, rforms slip.List) {
+// setupDo makes the bindings of do (s is the calling scope) and of do* (s is
+// ns). The scope for the test, the result forms and the statements is
+// returned.
+func setupDo(
+	s, ns *slip.Scope,
+	args slip.List,
+	depth int) (steps []*stepBind, test slip.Object, rforms slip.List, _ *slip.Scope) {
+
+	// The init forms of do* are evaluated in sequence, each sees the variables
+	// before it. Each variable gets a scope of its own, as with let*, so that
+	// a closure made by an init form does not see the variables that follow.
+	seq := s == ns
 	bindings, ok := args[0].(slip.List)
 	if !ok {
 		slip.TypePanic(s, depth, "do bindings", args[0], "list")
@@ -128,8 +140,12 @@ func setupDo(s, ns *slip.Scope, args slip.List, depth int) (steps []*stepBind, t
 	for i, binding := range bindings {
 		switch tb := binding.(type) {
 		case slip.Symbol:
+			if seq {
+				ns = ns.NewScope()
+				s = ns
+			}
 			ns.Let(tb, nil)
-			steps[i] = &stepBind{sym: slip.Symbol(strings.ToLower(string(tb)))}
+			steps[i] = &stepBind{sym: slip.Symbol(strings.ToLower(string(tb))), scope: ns}
 		case slip.List:
 			if len(tb) < 1 {
 				slip.TypePanic(s, depth, "do binding", nil, "list", "symbol")
@@ -141,10 +157,11 @@ func setupDo(s, ns *slip.Scope, args slip.List, depth int) (steps []*stepBind, t
 			sym = slip.Symbol(strings.ToLower(string(sym)))
 			sb := stepBind{sym: sym}
 			steps[i] = &sb
+			var value slip.Object
 			if 1 < len(tb) {
 				// Use the original scope to avoid using the new bindings since
 				// they are evaluated in apparent parallel.
-				ns.UnsafeLet(sym, slip.EvalArg(s, tb, 1, depth))
+				value = slip.EvalArg(s, tb, 1, depth)
 				if 2 < len(tb) {
 					sb.hasStep = true
 					sb.step = tb[2]
@@ -152,9 +169,13 @@ func setupDo(s, ns *slip.Scope, args slip.List, depth int) (steps []*stepBind, t
 						sb.step = slip.ListToFunc(s, list, depth)
 					}
 				}
-			} else {
-				ns.UnsafeLet(sym, nil)
 			}
+			if seq {
+				ns = ns.NewScope()
+				s = ns
+			}
+			ns.UnsafeLet(sym, value)
+			sb.scope = ns
 		default:
 			slip.TypePanic(s, depth, "do binding", tb, "list", "symbol")
 		}
@@ -169,5 +190,5 @@ func setupDo(s, ns *slip.Scope, args slip.List, depth int) (steps []*stepBind, t
 		}
 		rforms = list[1:]
 	}
-	return
+	return steps, test, rforms, ns
 }
